@@ -144,4 +144,282 @@ theorem step_resume (o : Opts) (pol : Pol) (m m' : Mach) (inp inp' e : Str)
       · exact ⟨fun _ => hok, fun hs => by rw [hs', hst] at hs; simp at hs,
           fun hs => by rw [hs', hst] at hs; simp at hs⟩
 
+/-! ### what the reader does to the machine registers -/
+
+theorem foldChar_fields (o : Opts) (m : Mach) (c : Char) :
+    (foldChar o m c).2.state = m.state ∧ (foldChar o m c).2.tempBuf = m.tempBuf ∧
+    (foldChar o m c).2.reconsume = m.reconsume ∧ (foldChar o m c).2.charRef = m.charRef ∧
+    (foldChar o m c).2.atEof = m.atEof ∧
+    (foldChar o m c).2.ignoreLf = (if c = '\r' then true else m.ignoreLf) ∧
+    (foldChar o m c).1 = (if c = '\r' then '\n' else c) := by
+  unfold foldChar
+  dsimp only
+  by_cases h1 : c = '\r'
+  · subst h1
+    simp only [↓reduceIte]
+    split <;> simp
+  · simp only [h1, ↓reduceIte]
+    split <;> split <;> simp
+
+theorem preprocess_via_fold (o : Opts) (m m1 : Mach) (x c : Char) (xs i1 : Str)
+    (h : preprocess o m x xs = (some c, m1, i1)) :
+    ∃ m0 c0, m0.ignoreLf = false ∧ (m0 = m ∨ m0 = m.setIgnoreLf false) ∧
+      c = (foldChar o m0 c0).1 ∧ m1 = (foldChar o m0 c0).2 := by
+  unfold preprocess at h
+  split at h
+  · split at h
+    · cases xs with
+      | nil => simp at h
+      | cons y ys =>
+        simp only [Prod.mk.injEq, Option.some.injEq] at h
+        exact ⟨m.setIgnoreLf false, y, by simp, Or.inr rfl, h.1.symm, h.2.1.symm⟩
+    · simp only [Prod.mk.injEq, Option.some.injEq] at h
+      exact ⟨m.setIgnoreLf false, x, by simp, Or.inr rfl, h.1.symm, h.2.1.symm⟩
+  · rename_i hil
+    simp only [Prod.mk.injEq, Option.some.injEq] at h
+    exact ⟨m, x, by simpa using hil, Or.inl rfl, h.1.symm, h.2.1.symm⟩
+
+/-- registers after a successful `get_char` -/
+theorem getChar_fields (o : Opts) (m m1 : Mach) (inp i1 : Str) (c : Char)
+    (h : getChar o m inp = (some c, m1, i1)) :
+    m1.state = m.state ∧ m1.tempBuf = m.tempBuf ∧ m1.reconsume = false ∧ m1.charRef = m.charRef ∧
+    m1.atEof = m.atEof ∧
+    (m.reconsume = false → (m1.ignoreLf = true → c = '\n')) ∧
+    (m.reconsume = true → m1.ignoreLf = m.ignoreLf) := by
+  unfold getChar at h
+  split at h
+  · rename_i hr
+    simp only [Prod.mk.injEq, Option.some.injEq] at h
+    obtain ⟨_, h2, _⟩ := h
+    subst h2
+    simp [hr]
+  · rename_i hr
+    have hr' : m.reconsume = false := by simpa using hr
+    cases inp with
+    | nil => simp at h
+    | cons x xs =>
+      simp only at h
+      obtain ⟨m0, c0, hil0, hm0, hc, hm1⟩ := preprocess_via_fold o m m1 x c xs i1 h
+      have hf := foldChar_fields o m0 c0
+      subst hc hm1
+      rcases hm0 with hm0 | hm0 <;> subst hm0
+      · refine ⟨hf.1, hf.2.1, by rw [hf.2.2.1, hr'], hf.2.2.2.1, hf.2.2.2.2.1, ?_, by simp [hr']⟩
+        intro _ hil
+        rw [hf.2.2.2.2.2.1] at hil
+        rw [hf.2.2.2.2.2.2]
+        split at hil
+        · simp_all
+        · rw [hil0] at hil; simp at hil
+      · refine ⟨by simpa using hf.1, by simpa using hf.2.1, by simpa [hr'] using hf.2.2.1,
+          by simpa using hf.2.2.2.1, by simpa using hf.2.2.2.2.1, ?_, by simp [hr']⟩
+        intro _ hil
+        rw [hf.2.2.2.2.2.1] at hil
+        rw [hf.2.2.2.2.2.2]
+        split at hil
+        · simp_all
+        · simp at hil
+
+/-! ### the invariant `Good` is preserved by every step -/
+
+/-- `m'` differs from `m` at most by cleared `ignore_lf` / `reconsume` flags (as far as `Good` can see) -/
+def Weaker (m' m : Mach) : Prop :=
+  m'.state = m.state ∧ m'.tempBuf = m.tempBuf ∧ (m'.ignoreLf = true → m.ignoreLf = true) ∧
+  (m'.reconsume = true → m.reconsume = true) ∧ m'.atEof = m.atEof ∧ m'.charRef = m.charRef
+
+theorem Weaker.refl (m : Mach) : Weaker m m := ⟨rfl, rfl, id, id, rfl, rfl⟩
+
+theorem Weaker.trans {a b c : Mach} (h1 : Weaker a b) (h2 : Weaker b c) : Weaker a c :=
+  ⟨h1.1.trans h2.1, h1.2.1.trans h2.2.1, fun h => h2.2.2.1 (h1.2.2.1 h), fun h => h2.2.2.2.1 (h1.2.2.2.1 h),
+   h1.2.2.2.2.1.trans h2.2.2.2.2.1, h1.2.2.2.2.2.trans h2.2.2.2.2.2⟩
+
+theorem Good.of_weaker {m' m : Mach} (hg : Good m) (hw : Weaker m' m) : Good m' where
+  eatOk := fun hs hil => by
+    rw [hw.2.1]; exact hg.eatOk (by rw [← hw.1]; exact hs) (hw.2.2.1 hil)
+  tagOpen := fun hs => by
+    cases hr : m'.reconsume with
+    | false => rfl
+    | true => have := hg.tagOpen (by rw [← hw.1]; exact hs); rw [hw.2.2.2.1 hr] at this; exact absurd this (by simp)
+  unq := fun hs => by
+    cases hi : m'.ignoreLf with
+    | false => rfl
+    | true => have := hg.unq (by rw [← hw.1]; exact hs); rw [hw.2.2.1 hi] at this; exact absurd this (by simp)
+
+theorem discardChar_weaker (m : Mach) (inp : Str) : Weaker (discardChar m inp).1 m := by
+  unfold discardChar
+  split
+  · exact ⟨by simp, by simp, by simp, by simp, by simp, by simp⟩
+  · exact Weaker.refl m
+
+theorem emitErr_weaker (m : Mach) (s : String) : Weaker (emitErr m s) m :=
+  ⟨by simp, by simp, by simp, by simp, by simp, by simp⟩
+
+theorem emit_weaker (m : Mach) (t : Token) : Weaker (emit m t) m :=
+  ⟨by simp, by simp, by simp, by simp, by simp, by simp⟩
+
+theorem nameErr_weaker (o : Opts) (m : Mach) (nb : Str) : Weaker (nameErr o m nb) m := by
+  unfold nameErr; split
+  · exact emit_weaker _ _
+  · exact emitErr_weaker _ _
+
+theorem finishNumeric_weaker (o : Opts) (m : Mach) (cr : CharRefSt) : Weaker (finishNumeric o m cr).1 m := by
+  unfold finishNumeric
+  dsimp only
+  split
+  · unfold numericErr
+    split
+    · exact emit_weaker _ _
+    · exact emitErr_weaker _ _
+  · exact Weaker.refl m
+
+/-- the machine component of a char-ref step result -/
+def CRRes.machWeaker (r : CRRes) (m : Mach) : Prop :=
+  match r with
+  | .error _ => True
+  | .ok (m1, _, _, _) => Weaker m1 m
+
+theorem unconsumeNumeric_weaker (m : Mach) (inp : Str) (cr : CharRefSt) :
+    (unconsumeNumeric m inp cr).machWeaker m := by
+  simp only [unconsumeNumeric, CRRes.machWeaker]; exact emitErr_weaker _ _
+
+theorem finishNumericStatus_weaker (o : Opts) (m : Mach) (inp : Str) (cr : CharRefSt) :
+    (finishNumericStatus o m inp cr).machWeaker m := by
+  have := finishNumeric_weaker o m cr
+  unfold finishNumericStatus
+  split
+  · rename_i heq; simp only [CRRes.machWeaker]; rw [heq] at this; exact this
+  · simp [CRRes.machWeaker]
+
+theorem namedDecision_weaker (m : Mach) (cr : CharRefSt) (nb : Str) (c1 c2 : Nat) (m1 : Mach) (chars : Str)
+    (h : namedDecision m cr nb c1 c2 = .ok (some (m1, chars))) : Weaker m1 m := by
+  unfold namedDecision at h
+  dsimp only at h
+  repeat' split at h
+  all_goals
+    first
+      | (simp at h; done)
+      | (simp only [Except.ok.injEq, Option.some.injEq, Prod.mk.injEq] at h
+         obtain ⟨h1, _⟩ := h
+         subst h1
+         first
+           | exact ⟨by simp, by simp, by simp, by simp, by simp, by simp⟩
+           | skip)
+
+theorem weaker_ite (c : Prop) [Decidable c] (a b m : Mach) (ha : Weaker a m) (hb : Weaker b m) :
+    Weaker (if c then a else b) m := by
+  split <;> assumption
+
+theorem finishNumeric_weaker' (o : Opts) (x m' : Mach) (cr : CharRefSt) (r : Except String Char)
+    (h : finishNumeric o x cr = (m', r)) : Weaker m' x := by
+  have := finishNumeric_weaker o x cr
+  rw [h] at this; exact this
+
+/-- brute force: every machine a char-ref step can return is `Weaker` than the one it started from -/
+theorem crStep_weaker (o : Opts) (m m1 : Mach) (inp i1 : Str) (cr cr1 : CharRefSt) (st : CRStatus)
+    (h : crStep o m inp cr = .ok (m1, i1, cr1, st)) : Weaker m1 m := by
+  unfold crStep unconsumeNumeric finishNumericStatus finishNamed at h
+  dsimp only at h
+  repeat' split at h
+  all_goals
+    first
+      | (simp at h; done)
+      | (simp only [Except.ok.injEq, Prod.mk.injEq] at h
+         obtain ⟨h1, _⟩ := h
+         subst h1
+         first
+           | exact Weaker.refl _
+           | exact discardChar_weaker _ _
+           | exact emitErr_weaker _ _
+           | exact Weaker.trans (emitErr_weaker _ _) (discardChar_weaker _ _)
+           | exact Weaker.trans (nameErr_weaker _ _ _) (discardChar_weaker _ _)
+           | exact nameErr_weaker _ _ _
+           | exact Weaker.trans (finishNumeric_weaker' _ _ _ _ _ (by assumption)) (discardChar_weaker _ _)
+           | exact Weaker.trans (finishNumeric_weaker' _ _ _ _ _ (by assumption)) (emitErr_weaker _ _)
+           | exact finishNumeric_weaker' _ _ _ _ _ (by assumption)
+           | exact Weaker.trans (namedDecision_weaker _ _ _ _ _ _ _ (by assumption)) (discardChar_weaker _ _)
+           | exact namedDecision_weaker _ _ _ _ _ _ _ (by assumption)
+           | (apply weaker_ite <;> first | exact Weaker.refl _ | exact discardChar_weaker _ _ | exact nameErr_weaker _ _ _ | exact Weaker.trans (nameErr_weaker _ _ _) (discardChar_weaker _ _)))
+
+/-- the machine in a step result -/
+def R.mach? : R → Option Mach
+  | .cont m _ | .suspend m _ | .script m _ | .indicator m _ => some m
+  | .panic _ => none
+
+theorem Good.of_fields {m' m : Mach} (hg : Good m) (h1 : m'.state = m.state) (h2 : m'.tempBuf = m.tempBuf)
+    (h3 : m'.ignoreLf = true → m.ignoreLf = true) (h4 : m'.reconsume = true → m.reconsume = true) :
+    Good m' where
+  eatOk := fun hs hil => by
+    rw [h2]; exact hg.eatOk (by rw [← h1]; exact hs) (h3 hil)
+  tagOpen := fun hs => by
+    cases hr : m'.reconsume with
+    | false => rfl
+    | true => have := hg.tagOpen (by rw [← h1]; exact hs); rw [h4 hr] at this; exact absurd this (by simp)
+  unq := fun hs => by
+    cases hi : m'.ignoreLf with
+    | false => rfl
+    | true => have := hg.unq (by rw [← h1]; exact hs); rw [h3 hi] at this; exact absurd this (by simp)
+
+theorem foldl_emitChar_fields (chars : Str) (m : Mach) :
+    (chars.foldl emitChar m).state = m.state ∧ (chars.foldl emitChar m).tempBuf = m.tempBuf ∧
+    (chars.foldl emitChar m).ignoreLf = m.ignoreLf ∧ (chars.foldl emitChar m).reconsume = m.reconsume ∧
+    (chars.foldl emitChar m).atEof = m.atEof := by
+  induction chars generalizing m with
+  | nil => simp
+  | cons c cs ih => simp only [List.foldl_cons]; have := ih (emitChar m c); simp_all
+
+theorem foldl_pushValue_fields (chars : Str) (m : Mach) :
+    (chars.foldl (fun m c => pushValue c m) m).state = m.state ∧
+    (chars.foldl (fun m c => pushValue c m) m).tempBuf = m.tempBuf ∧
+    (chars.foldl (fun m c => pushValue c m) m).ignoreLf = m.ignoreLf ∧
+    (chars.foldl (fun m c => pushValue c m) m).reconsume = m.reconsume ∧
+    (chars.foldl (fun m c => pushValue c m) m).atEof = m.atEof := by
+  induction chars generalizing m with
+  | nil => simp
+  | cons c cs ih => simp only [List.foldl_cons]; have := ih (pushValue c m); simp_all
+
+theorem processCharRef_fields (m : Mach) (chars : Str) :
+    (processCharRef m chars).1.state = m.state ∧ (processCharRef m chars).1.tempBuf = m.tempBuf ∧
+    (processCharRef m chars).1.ignoreLf = m.ignoreLf ∧ (processCharRef m chars).1.reconsume = m.reconsume ∧
+    (processCharRef m chars).1.atEof = m.atEof := by
+  unfold processCharRef
+  dsimp only
+  split
+  · exact foldl_emitChar_fields _ m
+  · exact foldl_emitChar_fields _ m
+  · exact foldl_pushValue_fields _ m
+  · simp
+
+theorem ofSig_mach (ms : Mach × Sig) (inp : Str) (m' : Mach) (h : (ofSig ms inp).mach? = some m') :
+    m' = ms.1 := by
+  unfold ofSig at h
+  split at h <;> simp [R.mach?] at h <;> exact h.symm
+
+theorem stepCharRef_good (o : Opts) (m : Mach) (inp : Str) (cr : CharRefSt) (hg : Good m)
+    (m' : Mach) (h : (stepCharRef o m inp cr).mach? = some m') : Good m' ∧ m'.atEof = m.atEof := by
+  unfold stepCharRef at h
+  cases hc : crStep o m inp cr with
+  | error x => rw [hc] at h; simp [R.mach?] at h
+  | ok v =>
+    obtain ⟨m1, i1, cr1, st⟩ := v
+    have hw := crStep_weaker o m m1 inp i1 cr cr1 st hc
+    rw [hc] at h
+    cases st with
+    | stuck =>
+      simp only [R.mach?, Option.some.injEq] at h
+      subst h
+      exact ⟨hg.of_fields (by simp [hw.1]) (by simp [hw.2.1]) (by simpa using hw.2.2.1) (by simpa using hw.2.2.2.1),
+        by simp [hw.2.2.2.2.1]⟩
+    | progress =>
+      simp only [R.mach?, Option.some.injEq] at h
+      subst h
+      exact ⟨hg.of_fields (by simp [hw.1]) (by simp [hw.2.1]) (by simpa using hw.2.2.1) (by simpa using hw.2.2.2.1),
+        by simp [hw.2.2.2.2.1]⟩
+    | done chars =>
+      have := ofSig_mach _ _ _ h
+      subst this
+      have hp := processCharRef_fields m1 chars
+      exact ⟨hg.of_fields (by simp [hp.1, hw.1]) (by simp [hp.2.1, hw.2.1])
+        (by simp only [setCharRef_ignoreLf, hp.2.2.1]; exact hw.2.2.1)
+        (by simp only [setCharRef_reconsume, hp.2.2.2.1]; exact hw.2.2.2.1),
+        by simp [hp.2.2.2.2, hw.2.2.2.2.1]⟩
+
 end H5V.Model.HtmlTok
